@@ -69,6 +69,19 @@ def monitor_obs(eng, mol, mol_idx, node, prev, step_fudge, max_force, box, grid=
 
 def make_monitor(step_fudge, max_force, grid_holder):
     def mon(rec, ev):
+        if ev["ev"] == "finish":
+            # at the end every residue of every molecule has a finite position inside the box (a residue taken back and never regenerated has none)
+            eng = rec.engine
+            box = np.asarray(eng.boxsize, float)
+            bad = []
+            for mi, mol in enumerate(rec.topology.molecules):
+                for node in mol.nodes:
+                    g = eng.nodes_to_gndx.get((mi, node))
+                    q = np.asarray(eng.positions[g], float) if g is not None else np.array([np.inf] * 3)
+                    if not (np.all(np.isfinite(q)) and np.all(q >= 0) and np.all(q < box + 1e-12)):
+                        bad.append([mi, int(node)])
+            ev["obs"], ev["raw"] = {"all_positioned_in_box": not bad}, {"unpositioned": bad[:20]}
+            return
         if ev["ev"] not in ("ok", "root"):
             return
         mi = ev["mol"] - 1
@@ -352,12 +365,32 @@ TRI 1
 1 2 1 0.47 100
 2 3 1 0.47 100
 3 1 1 0.47 100
+[ moleculetype ]
+CAP 1
+; five residues of ONE name; the two end residues carry a second bead, so they have another template and another size than the
+; repeat units although they are named alike (the step length depends on the sizes, not on the names)
+[ atoms ]
+1 P 1 RA B1 1 0.0 72
+2 P 1 RA B2 2 0.0 72
+3 P 2 RA B1 3 0.0 72
+4 P 3 RA B1 4 0.0 72
+5 P 4 RA B1 5 0.0 72
+6 P 5 RA B1 6 0.0 72
+7 P 5 RA B2 7 0.0 72
+[ bonds ]
+1 2 1 0.47 100
+1 3 1 0.47 100
+3 4 1 0.47 100
+4 5 1 0.47 100
+5 6 1 0.47 100
+6 7 1 0.47 100
 [ system ]
 mix
 [ molecules ]
 Y %d
 RING %d
 TRI %d
+CAP 3
 """
 
 
@@ -431,6 +464,30 @@ def _real_run(arg):
                         return {"inst": rec.header, "evs": rec.events, "error_in_code": "%s: %s" % (type(exc).__name__, exc)}
                 inst, evs = w.compact_trace(rec.header, rec.events)
                 return {"inst": inst, "evs": evs, "error_in_code": None}
+            if kind == "rebuild":
+                # residues RA are regenerated between kept residues RB of an existing structure (-c full structure, -res RA): steps over
+                # kept residues are skipped by the walk, and forced failures make it rewind across such skipped steps
+                top = wd / "mix.top"
+                top.write_text(Y_TOP % (6, 2, 2))
+                gen_coords(toppath=top, outpath=wd / "full.gro", name="t", box=np.array(box, float), max_force=5e4, nrewind=5, step_fudge=1.0)
+                frng = random.Random(sd)
+                budget = {"n": 12}
+
+                def chooser(kinds):     # None = the code decides (every accepted placement is a natural one)
+                    if kinds[0] == "ok" and budget["n"] > 0 and frng.random() < 0.2:
+                        budget["n"] -= 1
+                        return "fail"
+                    return None
+                holder["grid"] = None
+                with w.recording(monitor=make_monitor(step_fudge, max_force, holder), chooser=chooser) as rec:
+                    try:
+                        gen_coords(toppath=top, outpath=wd / "o.gro", name="t", coordpath=wd / "full.gro", build_res=["RA"], max_force=max_force, nrewind=nrewind,
+                                   step_fudge=step_fudge)
+                    except _Timeout:
+                        return {"noverdict": "timeout"}
+                    except Exception as exc:
+                        return {"inst": rec.header, "evs": rec.events, "error_in_code": "%s: %s" % (type(exc).__name__, exc)}
+                return {"inst": rec.header, "evs": rec.events, "error_in_code": None}
             if kind == "melt":
                 top = FIX / "e5b" / "melt.top"
             else:
@@ -571,7 +628,13 @@ def run(tier):
     # force criterion switched off by an astronomically large limit: only the 0.1 nm rule is left (dense box, short steps)
     runs.append(("melt", [2.5, 2.5, 2.5], 0.5, 1e300, 3, sd * 100 + 6, False))
     runs.append(("mix", [2.2, 2.2, 2.2], 0.5, 1e300, 5, sd * 100 + 7, False))
+    # regeneration of named residues between kept ones, with forced failures (rewinds across skipped steps)
+    runs.append(("rebuild", [3.5, 3.5, 3.5], 1.0, 5e4, 2, sd * 100 + 8, False))
+    runs.append(("rebuild", [3.5, 3.2, 3.8], 0.8, 5e4, 3, sd * 100 + 9, False))
+    runs.append(("rebuild", [3.6, 3.6, 3.6], 1.0, 5e4, 2, sd * 100 + 40, False))
+    runs.append(("rebuild", [3.4, 3.6, 3.5], 1.2, 5e4, 4, sd * 100 + 41, False))
     if tier == "thorough":
+        runs += [("rebuild", [3.5, 3.5, 3.5], sf, 5e4, nr, sd * 100 + 60 + i, False) for i, (sf, nr) in enumerate([(1.0, 2), (1.0, 3), (0.8, 4), (1.2, 5), (1.0, 1), (0.8, 2)])]
         runs += [(k, b, sf, mf, nr, sd * 100 + 10 + i, g) for i, (k, b, sf, mf, nr, g) in enumerate(
             [(k, b, sf, mf, nr, g) for k in ("melt", "mix") for b in ([3.0, 3.0, 3.0], [2.7, 3.1, 3.3]) for sf in (0.8, 1.0, 1.2)
              for mf, nr, g in ((3000.0, 3, False), (1e3, 5, True))])]
